@@ -2,6 +2,7 @@
 import os
 
 from vlib.runner import Job
+from vlib import extract
 
 VERIF = os.path.dirname(os.path.dirname(os.path.abspath(__file__)))
 HARNESS = os.path.join(VERIF, "harness", "c10.c")
@@ -114,6 +115,171 @@ CHK = ["--signed-overflow-check", "--div-by-zero-check", "--bounds-check", "--po
 BE = os.environ.get("C10_BACKEND", "sat")
 
 
+# ---- voxel positions: image geometry <-> header keys (contracts/c10g.h) ----
+HARNESS_G = os.path.join(VERIF, "harness", "c10g.c")
+IFC = "src/IO/interfile.cxx"
+KERNELS_G = [
+    dict(name="K_img_geometry_from_header", file=IFC, cxx_name="create_image_and_header_from: voxel size, index range and origin from the header (statement kernel)",
+         func=r"create_image_and_header_from\(InterfileImageHeader& hdr,\s*char\* full_data_file_name,[^)]*\)",
+         span=(r"CartesianCoordinate3D<float> voxel_size\(", r"- voxel_size \* BasicCoordinate<3, float>\(min_indices\);\s*\}"),
+         c_header="void K_img_geometry_from_header(const struct IHDR* hdr, struct IMGGEO* out)", loops=0,
+         post="out->voxel_size = voxel_size; out->origin = origin; out->min_indices = min_indices; out->max_indices = max_indices;",
+         rules=[(r"static_cast<float>\(([^()]*)\)", r"(float)(\1)", 3),
+                (r"CartesianCoordinate3D<float> voxel_size\(\s*([^;]*?)\);", r"struct C3F voxel_size = {\1};", 1),
+                (r"const BasicCoordinate<3, int> min_indices = make_coordinate\(([^;]*?)\);", r"const struct C3I min_indices = {\1};", 1),
+                (r"const BasicCoordinate<3, int> max_indices = min_indices \+ make_coordinate\(([^;]*?)\) - 1;", r"const struct C3I max_indices = K_c3i_add_sub1(min_indices, \1);", 1),
+                (r"CartesianCoordinate3D<float> origin\(0, 0, 0\);", "struct C3F origin = {0, 0, 0};", 1),
+                (r"InterfileHeader::double_value_not_set", "K_DOUBLE_NOT_SET", 1),
+                (r"origin = make_coordinate\(\s*float\(([^()]*)\), float\(([^()]*)\), float\(([^()]*)\)\)\s*- voxel_size \* BasicCoordinate<3, float>\(min_indices\);",
+                 r"origin = K_c3f_sub_mul((struct C3F){(float)(\1), (float)(\2), (float)(\3)}, voxel_size, min_indices);", 1),
+                (r"\bhdr\.", "hdr->", (8, 16))]),
+    dict(name="K_img_geometry_to_header", file=IFC, cxx_name="write_basic_interfile_image_header: matrix size, scaling factor and first pixel offset keys (statement kernel)",
+         func=r"write_basic_interfile_image_header\(const string& header_file_name,[^)]*\)",
+         span=(r'output_header << "matrix axis label \[1\] := x\\n";', r'output_header << "first pixel offset \(mm\) \[3\] := "[^;]*;\s*\}'),
+         c_header="void K_img_geometry_to_header(const _Bool origin_z_is_set)", loops=0,
+         rules=[(r'output_header << "matrix axis label \[(\d)\] := ([xyz])\\n";', r'__CPROVER_assert(AX_\2 == \1, "axis label of key [\1]");', 3),
+                (r'output_header << "!matrix size \[(\d)\] := " << (\w+)\.([xyz])\(\) << endl;', r"K_HDR_W(KEY_MATRIX_SIZE, \1, OBJ_\2, AX_\3);", 3),
+                (r'output_header << "scaling factor \(mm/pixel\) \[(\d)\] := " << (\w+)\.([xyz])\(\) << endl;', r"K_HDR_W(KEY_SCALING_FACTOR, \1, OBJ_\2, AX_\3);", 3),
+                (r"""output_header << "first pixel offset \(mm\) \[(\d)\] := " << (\w+)\.([xyz])\(\) << '\\n';""", r"K_HDR_W(KEY_FIRST_PIXEL_OFFSET, \1, OBJ_\2, AX_\3);", 3),
+                (r"origin\.z\(\) != InterfileHeader::double_value_not_set", "origin_z_is_set", 1),
+                (r"const CartesianCoordinate3D<float> first_pixel_offsets = voxel_size \* BasicCoordinate<3, float>\(min_indices\) \+ origin;", "g_fpo_formula = 1;", 1)]),
+]
+KERNELS += KERNELS_G
+
+
+# ---- header number formatting: stream-state typestate of the header writer (contracts/c10g.h) ----
+_MANIP = r"(?:std::)?(fixed|scientific|hex|oct|dec|defaultfloat|hexfloat)$"
+
+
+def _split_top(text, sep):
+    """split at `sep` outside parentheses, string and character literals"""
+    parts, cur, depth, i, n = [], "", 0, 0, len(text)
+    while i < n:
+        c = text[i]
+        if c in "\"'":
+            j = i + 1
+            while j < n and text[j] != c:
+                j += 2 if text[j] == "\\" else 1
+            cur += text[i:j + 1]
+            i = j + 1
+            continue
+        if c in "([{":
+            depth += 1
+        elif c in ")]}":
+            depth -= 1
+        if depth == 0 and text.startswith(sep, i):
+            parts.append(cur)
+            cur = ""
+            i += len(sep)
+            continue
+        cur += c
+        i += 1
+    parts.append(cur)
+    return parts
+
+
+def _stream_stmt(stm, stream):
+    st = " ".join(stm.split())
+    if re.match(r"(?:std::)?ofstream\s+%s\b" % stream, st):
+        return "K_STREAM_OPEN();"
+    if re.match(r"%s\s*<<" % stream, st):
+        out = []
+        for op in _split_top(st, "<<")[1:]:
+            op = op.strip()
+            if re.match(r'^(?:"(?:[^"\\]|\\.)*"\s*)+$', op) or re.match(r"^'(?:[^'\\]|\\.)'$", op) or re.match(r"^(?:std::)?(endl|flush|ends)$", op):
+                continue
+            mm = re.match(_MANIP, op)
+            if mm:
+                out.append("K_FMT(FMT_%s);" % mm.group(1))
+                continue
+            mp = re.match(r"^(?:std::)?setprecision\((.*)\)$", op)
+            if mp:
+                out.append("K_PREC(%s);" % (mp.group(1) if re.match(r"^\d+$", mp.group(1).strip()) else "nondet_int()"))
+                continue
+            if re.match(r"^(?:std::)?(setw|setfill|left|right|internal|showpoint|noshowpoint|boolalpha|noboolalpha|uppercase|nouppercase)\b", op):
+                continue
+            out.append("K_VAL();")
+        return ("{ " + " ".join(out) + " }") if out else ";"
+    mp = re.match(r"%s\.precision\((\d+)\)$" % stream, st)
+    if mp:
+        return "K_PREC(%s);" % mp.group(1)
+    if re.match(r"%s\.(setf|unsetf|flags|imbue|copyfmt)\(" % stream, st):
+        raise extract.ExtractionError("header writer changes the stream state through %s: not understood by the skeleton rule" % st[:60])
+    if re.search(r"\b%s\b" % stream, st) and not re.match(r"(if|return)\b", st):
+        return "K_VAL(); /* stream handed to a callee that writes values */"
+    if st.startswith("return"):
+        return "return;"
+    return ";"
+
+
+def _stream_skeleton(stream):
+    """Rule (callable): the function body -> its control skeleton (blocks, if/else, loops; conditions nondeterministic) with the operations on
+    `stream` kept in order: manipulators that change the number format, setprecision, and insertions of non-literal values. Everything else is dropped."""
+    def run(m):
+        text, out, i, n = m.group(0), [], 0, len(m.group(0))
+        def paren(j):
+            depth = 0
+            while j < n:
+                if text[j] in "\"'":
+                    q = text[j]; j += 1
+                    while j < n and text[j] != q:
+                        j += 2 if text[j] == "\\" else 1
+                elif text[j] == "(":
+                    depth += 1
+                elif text[j] == ")":
+                    depth -= 1
+                    if depth == 0:
+                        return j
+                j += 1
+            raise extract.ExtractionError("skeleton rule: unbalanced parenthesis")
+        while i < n:
+            c = text[i]
+            if c.isspace():
+                out.append(c); i += 1; continue
+            if c in "{}":
+                out.append(c); i += 1; continue
+            mk = re.match(r"(if|for|while|else|do|switch|try|catch|goto)\b", text[i:])
+            if mk:
+                kw = mk.group(1)
+                if kw in ("do", "switch", "try", "catch", "goto"):
+                    raise extract.ExtractionError("skeleton rule: '%s' not supported" % kw)
+                i += len(kw)
+                if kw == "else":
+                    out.append("else "); continue
+                j = text.index("(", i)
+                k = paren(j)
+                out.append({"if": "if (nondet_bool())", "for": "for (; nondet_bool();)", "while": "while (nondet_bool())"}[kw])
+                i = k + 1
+                continue
+            # simple statement up to ';' outside parentheses / literals
+            j, depth = i, 0
+            while j < n:
+                ch = text[j]
+                if ch in "\"'":
+                    q = ch; j += 1
+                    while j < n and text[j] != q:
+                        j += 2 if text[j] == "\\" else 1
+                elif ch in "([":
+                    depth += 1
+                elif ch in ")]":
+                    depth -= 1
+                elif ch == ";" and depth == 0:
+                    break
+                j += 1
+            out.append(_stream_stmt(text[i:j], stream))
+            i = j + 1
+        return "".join(out)
+    return run
+
+
+KERNELS_F = [
+    dict(name="K_hdr_stream_format", file=IFC, cxx_name="write_basic_interfile_image_header: number-format state of the header stream (control skeleton + stream operations)",
+         func=r"write_basic_interfile_image_header\(const string& header_file_name,[^)]*\)", c_header="void K_hdr_stream_format(void)",
+         rules=[(r"\A.*\Z", _stream_skeleton("output_header"), 1)]),
+]
+KERNELS += KERNELS_F
+
+
 def jobs(tier, gen_dir):
     out = []
     for t in TYPES:
@@ -162,6 +328,14 @@ def jobs(tier, gen_dir):
                    defines={"CANARY_K_find_scale_factor": None}, expect_fail=r"K_find_scale_factor\.postcondition", no_base_flags=True, timeout=300))
     out.append(Job("c10/canary/lemma_no_overflow", HARNESS, "h_lemma_real", kind="canary", kernels=[], defines={"LEMMA_CANARY": None}, flags=[], no_base_flags=True,
                    expect_fail=r"vacuity canary", timeout=600))
+    for k in ("K_img_geometry_from_header", "K_img_geometry_to_header"):
+        out.append(Job("c10/" + k, HARNESS_G, "h_" + k, enforce=k, kernels=[k], flags=CHK, no_base_flags=True, min_obligations=2, timeout=600, backend="sat", replay="geometry"))
+        out.append(Job("c10/canary/" + k, HARNESS_G, "h_" + k, enforce=k, kernels=[k], kind="canary", defines={"CANARY_" + k: None}, expect_fail=k + r"\.postcondition",
+                       no_base_flags=True, timeout=600))
+    out.append(Job("c10/K_hdr_stream_format", HARNESS_G, "h_K_hdr_stream_format", enforce="K_hdr_stream_format", kernels=["K_hdr_stream_format"], flags=CHK, no_base_flags=True,
+                   min_obligations=10, timeout=600, backend="kissat", loop_contracts=True, replay="geometry"))
+    out.append(Job("c10/canary/K_hdr_stream_format", HARNESS_G, "h_K_hdr_stream_format", enforce="K_hdr_stream_format", kernels=["K_hdr_stream_format"], kind="canary",
+                   defines={"CANARY_K_hdr_stream_format": None}, expect_fail=r"K_hdr_stream_format\.(postcondition|assertion)", no_base_flags=True, timeout=600, loop_contracts=True))
     return out
 
 
@@ -194,6 +368,18 @@ def replay(job, o, workroot, repo):
         if st == "confirmed":
             return {"status": "confirmed", "detail": detail, "command": "c10_bo_replay <dir>", "from_verifier_counterexample": False}
         return {"status": "not-reproduced", "detail": "c10_bo_replay: images written as short / int / float in both byte orders and read back (" + str(detail)[:160] + ")"}
+    if "K_img_geometry" in job.name or "K_hdr_stream" in job.name:
+        from vlib import native
+        exe = os.path.join(workroot, "c10_hdr_replay")
+        if not os.path.exists(exe):
+            exe, info = native.build(repo, os.path.join(VERIF, "replay", "c10_hdr.cpp"), exe)
+            if not exe:
+                return {"status": "unavailable", "detail": "replay driver did not build: " + info}
+        os.environ.setdefault("STIR_CONFIG_DIR", os.path.join(repo, "src/config"))
+        st, detail = native.run(exe, [workroot], timeout=300)
+        if st == "confirmed":
+            return {"status": "confirmed", "detail": detail, "command": "c10_hdr_replay <dir>", "from_verifier_counterexample": False}
+        return {"status": "not-reproduced", "detail": "c10_hdr_replay: 48 images (3 geometries x calibration factor x short/int x small/large values) written and read back (" + str(detail)[:160] + ")"}
     if "radionuclide" in job.name or "rn_" in job.name:
         from vlib import native
         exe = os.path.join(workroot, "c10_rn_replay")
